@@ -36,7 +36,12 @@ def suite_riemann(ctx, case):
     d = build(case); N = int(d.length)
     rs = np.random.RandomState(case['aseed'])
     f = rs.normal(size=N) * np.exp(-np.arange(N) / (0.3 * N + 1)) * case.get('amp', 1.0)
+    if case.get('dtype') == 'int': f = np.rint(3 * f / (np.max(np.abs(f)) + 1e-300)).astype(int)        # integer-typed samples, e.g. np.where(r <= R, 1, 0)
+    elif case.get('dtype') == 'bool': f = f > 0                                                        # boolean indicator r <= R
+    given = f.copy()
     F = d.to_fourier(f); R = d.to_real(f)
+    ctx.pred('riemann', case, bool(np.array_equal(f, given)) and f.dtype == given.dtype, 'a transform modified the array it was given', key='C08:purity')
+    f = np.asarray(f, dtype=float)
     dr = float(d.dr); dk = float(d.dk)
     r = np.arange(1, N + 1) * dr; k = np.arange(1, N + 1) * dk
     S = np.sin(np.outer(k, r - dr / 2))                     # S[j,i] = sin(k_j (r_i - dr/2))
@@ -121,10 +126,12 @@ def generate(ctx):
         if c0 < 0.15: case['dk'] = float('%.5g' % (10 ** rng.uniform(-3.5, -2)))          # very fine k grids (large r_max): k well below 0.01
         elif c0 < 0.25: case['dr'] = float('%.5g' % (10 ** rng.uniform(0.5, 1.5)))
         else: case['dr' if rng.random() < 0.5 else 'dk'] = float('%.5g' % (10 ** rng.uniform(-2, 0.5)))
+        if rng.random() < 0.12: case.pop('dk', None); case['dr'] = rng.choice([1, 2, 3])        # integer-TYPED spacing: Domain(length, dr=1)
+        case['dtype'] = rng.choice(['float', 'float', 'float', 'int', 'bool'])
         for _ in range(rng.choice([0, 0, 1, 2])):
             k = rng.choice(['dr', 'dk', 'length'])
             case['ops'].append([k, rng.choice([5, 9, 16, 21, 40]) if k == 'length' else float('%.5g' % (10 ** rng.uniform(-2, 0.5)))])
-        ctx.case('riemann', case, True, tags=['from:' + ('dr' if 'dr' in case else 'dk'), 'hist:%d' % len(case['ops'])]); suite_riemann(ctx, case)
+        ctx.case('riemann', case, True, tags=['dtype:' + case['dtype'], 'intdr' if isinstance(case.get('dr'), int) else 'floatdr', 'from:' + ('dr' if 'dr' in case else 'dk'), 'hist:%d' % len(case['ops'])]); suite_riemann(ctx, case)
     for _ in range(ctx.n(40, 300)):
         rmax = rng.choice([20.0, 25.6, 30.0, 40.0, 800.0, 2000.0])
         N0 = rng.choice([100, 128, 160, 200, 250])
